@@ -52,7 +52,14 @@ def run(ctx):
         hist = vlib.extract_case(cmd.split(), driver, case_no)
         ctx.violation("FIFO conservation violated by the implementation under a concrete schedule: " + line,
                       {"execution": hist, "harness_cmd": cmd, "how_to_rerun": "c03 one <kind> <cap> <program> <schedule from the S line>"})
-    if model_mm and not spec_mm:
+    ra_witness = []
+    def report_model_mm():
+        # the trace comparison broke without a conservation failure: an ordering-only divergence for
+        # which the view-model search below produced a failing execution is reported there, with input
+        if not (model_mm and not spec_mm):
+            return
+        if ra_witness and all("(ordering:" in m[2] for m in model_mm):
+            return
         lbl, cmd, line = model_mm[0]
         case_no = int(line.split("case=")[1].split()[0])
         hist = vlib.extract_case(cmd.split(), driver, case_no)
@@ -84,6 +91,7 @@ def run(ctx):
             rc, out = vlib.sh("%s ra %s" % (driver, " ".join(table)), timeout=600)
             wit = [l for l in out.split("\n") if l.startswith("RAWITNESS")]
             if wit:
+                ra_witness.append(wit[0])
                 ctx.violation("%s: memory orderings %s differ from the proved table; under release/acquire semantics the view model has a failing execution: %s" % (kind, table, wit[0]),
                               {"queue": kind, "observed_orderings(push_load_wp,push_load_rp,push_store_wp,pop_load_rp,pop_load_wp,pop_store_rp)": table,
                                "model_witness": wit[0], "note": "schedule entries are thread:staleness; replay = run model/SpscQueueRA.v rstep with these orderings on this schedule (coq: race_after); not reproducible on x86 hardware, which is why the tests pass",
@@ -91,12 +99,51 @@ def run(ctx):
             else:
                 ctx.violation("%s: memory orderings %s differ from the table of theorem c03_ra_race_free_and_conserving; no failing execution found in the view model for them" % (kind, table),
                               {"obligation": "c03_ra_race_free_and_conserving is stated for ords_code only", "observed": table}, no_input=True)
+    # ---- the same for the safely overflowing queue: seven orderings (sites 31, 33, 34, 40, 41 = 44, 43 success/failure)
+    SYNC = ["acq", "rel", "acqrel", "acq", "acq", "rel", "acq"]
+    oqs = r.get("sites", {}).get("oq", {})
+    def one(site, idx):
+        vals = sorted({v[idx] for v in oqs.get(site, ())})
+        return vals
+    cols = [one("31", 1), one("33", 1), one("34", 1), one("40", 1), sorted(set(one("41", 1)) | set(one("44", 1))), one("43", 1), one("43", 2)]
+    ra_tables["oq"] = cols
+    if oqs:
+        if any(len(c_) != 1 for c_ in cols):
+            ctx.violation("memory-ordering table of the safely overflowing queue could not be observed unambiguously", {"observed": cols}, no_input=True)
+        else:
+            table = [c_[0] for c_ in cols]
+            if table != SYNC:
+                rc, out = vlib.sh("%s oqra %s" % (driver, " ".join(table)), timeout=600)
+                wit = [l for l in out.split("\n") if l.startswith("OQRAWITNESS")]
+                if wit:
+                    ra_witness.append(wit[0])
+                    ctx.violation("oq: memory orderings %s differ from the proved table %s; under release/acquire semantics the view model has an execution in which a RETURNED value is read or overwritten racily: %s" % (table, SYNC, wit[0]),
+                                  {"queue": "oq", "observed_orderings(push_load_rp,push_store_wp,push_cas,pop_load_rp,pop_load_wp,pop_cas,pop_cas_fail)": table,
+                                   "model_witness": wit[0], "note": "schedule entries are thread:staleness (0 = producer, 1 = consumer); replay = run model/OverflowQueueRA.v qstep with these orderings on this schedule (coq: used_race_after); on the implementation the unordered pair is reported by Miri's data race detector for the corresponding two-thread program; not reproducible on x86 hardware, which is why the tests pass",
+                                   "how_to_rerun": "%s oqra %s" % (driver, " ".join(table))})
+                else:
+                    ctx.violation("oq: memory orderings %s differ from the table of theorem c03_oqra_used_race_free_and_conserving; no failing execution found in the view model for them" % table,
+                                  {"obligation": "c03_oqra_used_race_free_and_conserving is stated for oq_ords_sync only", "observed": table}, no_input=True)
     ctx.cov["observed_ordering_tables"] = ra_tables
+    report_model_mm()
+    # ---- known finding oq:speculative-read: replay the schedule of c03_oq_no_slot_conflict_refuted on the real queue
+    spec_cmd = [exe, "one", "oq", "1", "acqp,push7,push8,push9|acqc,pop", "0,0,0,0,0,1,1,1,0,0,0,0,0,0,0,0,1,0"]
+    rc, out = vlib.sh(" ".join("'%s'" % x for x in spec_cmd), timeout=120)
+    ev = [l.split() for l in out.split("\n") if l.startswith("E ")]
+    adj = [(a_, b_) for a_, b_ in zip(ev, ev[1:]) if a_[4] == "cell" and b_[4] == "cell" and a_[3] == b_[3] and a_[1] != b_[1]]
+    rs = vlib.run_pipelines([("specread:oq:0", ["'%s'" % x for x in spec_cmd])], driver)
+    ctx.cov["speculative_read_replay"] = {"adjacent_conflicting_cell_accesses": len(adj), "trace_equal_to_model": not rs["mismatch_lines"] and not rs["failed_jobs"]}
+    if adj and not rs["mismatch_lines"] and not rs["failed_jobs"]:
+        ctx.violation("safely overflowing queue: the consumer's speculative slot read and the producer's re-use of that slot are adjacent in an execution of the real queue (data race on a plain cell; the value read is discarded)",
+                      {"harness_cmd": " ".join(spec_cmd), "adjacent_accesses": [(" ".join(a_), " ".join(b_)) for a_, b_ in adj],
+                       "theorems": ["c03_oq_no_slot_conflict_refuted", "c03_oqra_no_race_at_all_refuted"]}, key="oq:speculative-read")
+    ctx.ra_witness = ra_witness
     import c03conn_part; c03conn_part.run_conn(ctx)
     if not proof_ok and not ctx.violations:
         ctx.violation("proof obligation no longer checks: %s" % ctx.broken, {"broken": ctx.broken}, no_input=True)
     ctx.assumptions = [
-        "sequentially consistent interleaving at access granularity (weak-memory behaviours are not exhibited by the model; the memory ordering of every access site is pinned by the trace comparison)",
+        "sequentially consistent interleaving at access granularity for the trace comparison; weak-memory behaviours are covered by the two release/acquire view models (SpscQueueRA.v, OverflowQueueRA.v: stale cursor reads by oracle, acquired views), which are tied to the code through the memory ordering of every access site, pinned by the trace comparison and compared with the proved tables on every run",
+        "view models: fixed roles (thread 0 producer, thread 1 consumer), release sequences as in C++20 (every write of read_position is a read-modify-write), no load buffering / out-of-thin-air; a racy access is flagged, its value is not modelled",
         "2^64 cursor wrap-around not modelled (unbounded N)",
         "tie = trace equality on the explored schedules; the gate (cargo paths override of iceoryx2-pal-concurrency-sync) is generated from /repo's current source",
     ]
